@@ -118,6 +118,18 @@ func dispatchCases(r *hk.Run) {
 		r.Count(stream, key)
 		r.Dist["disp_"+o.class]++
 		site := "nas." + names[entry]
+		// ---- C10: the entry points neither write to nor keep a reference into the caller's bytes
+		if !isNil && !bytes.Equal(arg, in) {
+			fail(r, "C10", site, "input-modified", hk.Hex(in), "the decoder wrote to the input bytes: "+hk.Hex(arg))
+		}
+		if prop == "C10" && o.class == "ok" {
+			for i := range arg {
+				arg[i] ^= 0xff
+			}
+			if o2 := observe(m); o2.coq() != o.coq() {
+				fail(r, "C10", site, "aliases-input", hk.Hex(in), "mutating the input after decoding changed the message")
+			}
+		}
 		if o.class == "panic" {
 			fail(r, "C01", site, "panic", hk.Hex(in), "dispatching decoder panicked")
 			fail(r, "C05", site, "panic", hk.Hex(in), "dispatching decoder panicked")
